@@ -9,6 +9,7 @@ CONSTANTS
   NearPairs = FALSE
   EqMode = "structural"
   ProvTags = 1
+  FreshApart = 1
   WideProv = FALSE
 CONSTRAINT Export
 INVARIANT ImplEncoder
